@@ -408,7 +408,12 @@ def eventAsText(
 
     timeStamp = ""
     if includeTimestamp:
-        timeStamp = "".join([formatTime(cast(float, event.get("log_time", None))), " "])
+        try:
+            formattedTime = formatTime(cast(float, event.get("log_time", None)))
+        except (TypeError, ValueError, OverflowError, OSError):
+            # log_time is not a usable timestamp.
+            formattedTime = "-"
+        timeStamp = "".join([formattedTime, " "])
 
     system = ""
     if includeSystem:
